@@ -457,6 +457,12 @@ def run_alg(ctx, case):
     cur = run_filter(f, cur)[1]
   ok = ok and check_composite(ctx, case, "pow", f ** n, mf ** n, x, cur)
   ctx.count("pow:%d" % n)
+  if n and (len(f.numpoly) >= 2 or len(f.denpoly) >= 2):
+    # negative exponents: the n-th power of the inverse system (one-term
+    # filters go through int ** negative, a rounded float: not compared)
+    ok = ok and check_composite(ctx, case, "pow-negative", f ** -n,
+                                (RF.const(1) / mf) ** n, x)
+    ctx.count("pow-negative")
   # pure delays
   delayed = ([0] * k + list(x))[:xlen]
   ok = ok and check_composite(ctx, case, "delay", z ** -k,
@@ -612,6 +618,7 @@ def finish(ctx):
             "substitution-points-compared", "equal-pairs-hash-compared",
             "linearize-compared"]:
     ctx.need(k, 50)
+  ctx.need("pow-negative", 100)
   ctx.need("substitution:random", 50)
   ctx.need("substitution:special", 50)
   for how in ["same", "num-only", "den-only", "other"]:
